@@ -19,7 +19,7 @@ NAMES = {"exact": "http.echo", "suffix": "http.echoX", "prefix": "xhttp.echo", "
          "unexposed_registered": "private.obj", "unknown": "http.nothere"}
 # internal.http.admin contains the default pattern, but not at its start: it is not exposed (the pattern is matched at the start)
 REGISTERED = {"http.echo": "echo", "http.other": "other", "private.obj": "private", "internal.http.admin": "internal"}
-MEMBERS = {"method": "echo", "method_raises": "fail", "method_streams": "numbers", "attribute": "value", "meta": "$meta", "unknown": "nosuch", "private": "_secret",
+MEMBERS = {"method": "echo", "method_raises": "fail", "method_streams": "numbers", "method_vanishes": "vanish", "attribute": "value", "meta": "$meta", "unknown": "nosuch", "private": "_secret",
            "method_slow": "slow"}
 PATTERNS = {"default": r"http\.", "anchored": r"http\.echo$", "empty": ""}
 PARAMS = {"none": [], "one": [("message", "hi there")], "two": [("a", "1"), ("b", "two")], "repeated": [("a", "1"), ("a", "2")],
@@ -126,6 +126,12 @@ def run_cases(cases, sqlfile=None):
             def fail(self, **kwargs):
                 self._ran("fail", kwargs, None)
                 raise ValueError("deliberate failure in " + self.tag)
+
+            def vanish(self, **kwargs):
+                self._ran("vanish", kwargs, None)
+                from Pyro5 import callcontext as _cc
+                _cc.current_context.client.sock.close()        # the connection is gone before the answer is
+                return "never arrives"
 
             def numbers(self, **kwargs):
                 self._ran("numbers", kwargs, None)
@@ -242,7 +248,7 @@ def run_cases(cases, sqlfile=None):
                     tr["body"] = "result"
                 elif isinstance(val, dict) and val.get("__exception__") and "ValueError" in str(val.get("__class__")):
                     tr["body"] = "exception"
-                elif isinstance(val, dict) and set(val) == {"methods", "attributes"} and set(val["methods"]) == {"echo", "fail", "nosuch_other", "numbers", "slow"} \
+                elif isinstance(val, dict) and set(val) == {"methods", "attributes"} and set(val["methods"]) == {"echo", "fail", "nosuch_other", "numbers", "slow", "vanish"} \
                         and set(val["attributes"]) == {"value"}:
                     tr["body"] = "meta"
                 tr["body_head"] = body[:100].decode("latin-1")
@@ -281,8 +287,8 @@ def run(ctx):
                 raise util.MachineryError("Matches table disagrees with the concrete names: %s %s" % (p, n))
     tlc.mc(ctx, "Gateway", cfg="MC_Gateway.cfg")
     cases = tlc.gen(ctx, "Gen_Gateway", cfg="Gen_Gateway.cfg")
-    if len(cases) != 12566:
-        raise util.MachineryError("expected 12566 cases, got %d" % len(cases))
+    if len(cases) != 12610:
+        raise util.MachineryError("expected 12610 cases, got %d" % len(cases))
     cases.sort(key=lambda c: json.dumps(c["r"], sort_keys=True))
     if ctx.quick:
         cases = [c for i, c in enumerate(cases) if c["decide"] in ("redirect", "notfound", "index", "preflight") or (i + ctx.seed) % 3 == 0]
